@@ -2,7 +2,7 @@
 import json
 
 ID = "C09"
-HARNESS_TEST = "TestC09|TestC09Routes"
+HARNESS_TEST = "TestC09|TestC09Routes|TestC09Sims"
 GEN = "c09"
 COQ_MODEL = ["C09/Check.v", "C09/Sites.v", "Gen/C09Facts.v"]
 COQ_PROOF_DEPS = ["C09/Proofs.v"]
@@ -14,7 +14,11 @@ CASE_TYPE = "anycase"
 # check-state contexts, Shared (the faithful model of the unguarded code) otherwise
 MISMATCH_FN = "mismatch_any (mode_of ptr_sites)"
 VIOLATES_FN = "violates_any"
-RULE = ("two drivers. (2) routes: every method of the generated QueryServer interface of inflation / oracle / epochs / sudo / tokenfactory / "
+RULE = ("three drivers. (3) sims: a dependency chain of Cosmos messages of one signer (bank send, tokenfactory create/mint/burn/change-admin, evm "
+        "CreateFunToken(from coin) / ConvertCoinToEvm) over 3 denoms; multi- and single-message txs made of chain messages are SIMULATED "
+        "(baseapp.Simulate, never committed) after Commit of block A or inside block B, while sub-sequences of the chain are delivered in "
+        "blocks A and B; compared: every DeliverTx response and app hash; non-trivial = a multi-message simulation succeeded and block B "
+        "delivers something. (2) routes: every method of the generated QueryServer interface of inflation / oracle / epochs / sudo / tokenfactory / "
         "devgas / evm (enumerated by reflection, empty + populated request, through app.Query) issued after Commit of / inside a chosen block of "
         "a sequence that ends two day epochs (inflation mints), vote periods and a slash window; non-trivial = requests answered and the "
         "reference replica minted. (1) case = (deliver script: init code of a contract-creation EVM tx made of yield / native send / FunToken.bankMsgSend steps, "
@@ -75,7 +79,14 @@ def _is_route(rec):
     return isinstance(rec.get("input"), dict) and rec["input"].get("driver") == "routes"
 
 
+def _is_sims(rec):
+    return isinstance(rec.get("input"), dict) and rec["input"].get("driver") == "sims"
+
+
 def to_coq_case(rec):
+    if _is_sims(rec):
+        o = rec["obs"]
+        return "(CSim (mkRoute %s %s %s))" % (_b(o["hash_eq"]), _b(o["results_eq"] and not o.get("panic")), _b(o["events_eq"]))
     if _is_route(rec):
         o = rec["obs"]
         return "(CRoute (mkRoute %s %s %s))" % (_b(o["hash_eq"]), _b(o["supply_eq"]), _b(o["events_eq"] and not o.get("panic")))
@@ -111,6 +122,9 @@ def _evm_case(rec):
 
 def _in_flight(rec):
     i, o = rec["input"], rec["obs"]
+    if _is_sims(rec):
+        # a multi-message simulation ran to completion and the later block delivered something
+        return any(r == "ok" and len(t) >= 2 for r, t in zip(o["sim_res"], i["sims"])) and len(i["post"]) > 0
     if _is_route(rec):
         # the requests were answered and the block sequence really minted (a day epoch ended) on the reference replica
         return o["q_ok"] > 0 and int(o["minted"]) > 0
@@ -125,6 +139,11 @@ def nontrivial(rec):
 
 def classify(rec):
     i, o = rec["input"], rec["obs"]
+    if _is_sims(rec):
+        ks = ["driver:sims", "chain:" + "+".join(m["kind"] for m in i["chain"]), "sims=%d" % len(i["sims"]),
+              "sim_at:" + ("in-block" if i["sim_in"] else "between-blocks"), "interference:" + _effect(rec)]
+        ks += ["sim:" + r for r in o["sim_res"]] + ["code:%d" % c for c in o["codes"]]
+        return ks
     if _is_route(rec):
         return ["driver:routes", "svc:" + i["svc"], "at:%s/%d" % (i["at"], i["block"]), "routes=%d" % o["routes"],
                 "interference:" + _effect(rec)]
@@ -143,6 +162,16 @@ def describe(rec):
 
 def _effect(rec):
     o = rec["obs"]
+    if _is_sims(rec):
+        if o.get("panic"):
+            return "block-execution-panicked"
+        if o["codes"] != o["codes_w"]:
+            return "deliver-tx-code-changed"
+        if not o["results_eq"]:
+            return "deliver-tx-result-changed"
+        if not o["hash_eq"]:
+            return "app-hash-differs"
+        return "none" if o["events_eq"] else "tx-events-differ"
     if _is_route(rec):
         if o.get("panic"):
             return "block-execution-panicked"
@@ -169,6 +198,10 @@ def signature(rec):
     """Identifies a finding: where the request ran, which requests could reach the shared StateDB pointer (entry point :
     operation; all requests of the case when none of them performs a unibi bank operation), what changed."""
     i = rec["input"]
+    if _is_sims(rec):
+        simmed = sorted({i["chain"][j]["kind"] for t in i["sims"] for j in t if 0 <= j < len(i["chain"])})
+        return {"kind": "tx-simulation-" + ("in-block" if i["sim_in"] else "between-blocks"), "query": "Simulate:[" + ",".join(simmed) + "]",
+                "effect": _effect(rec)}
     if _is_route(rec):
         return {"kind": "grpc-routes-%s-block" % i["at"], "query": "all-routes:" + i["svc"], "effect": _effect(rec)}
     kinds = sorted({q["kind"] for q in i["queries"]})
@@ -181,6 +214,8 @@ def signature(rec):
 
 
 def input_size(inp):
+    if inp.get("driver") == "sims":
+        return 10 * sum(len(t) for t in inp["sims"]) + 5 * sum(len(t) for t in inp["pre"] + inp["post"]) + len(inp["sims"])
     if inp.get("driver") == "routes":
         return 100 if inp["svc"] == "all" else 10
     return len(inp["steps"]) * 10 + len(inp["queries"]) * 25 + (5 if inp["revert"] else 0) + \
@@ -188,6 +223,16 @@ def input_size(inp):
 
 
 def shrink_candidates(inp):
+    if inp.get("driver") == "sims":
+        out = []
+        for f in ("sims", "pre", "post"):
+            l = inp[f]
+            for n in range(len(l)):
+                out.append(dict(inp, **{f: l[:n] + l[n + 1:]}))           # drop a tx
+                for k in range(len(l[n])):
+                    if len(l[n]) > 1:
+                        out.append(dict(inp, **{f: l[:n] + [l[n][:k] + l[n][k + 1:]] + l[n + 1:]}))  # drop a message
+        return out
     if inp.get("driver") == "routes":
         if inp["svc"] == "all":
             return [dict(inp, svc=s) for s in ("inflation", "oracle", "epochs", "sudo", "tokenfactory", "devgas", "evm")]
